@@ -292,6 +292,12 @@ func c20r3(c *core.Ctx) {
 			removed, _ = core.ConstString(core.Args(i)[1])
 		}
 	})
+	if p.Func("accessory", "deleteFieldFromDict") == nil {
+		// the removal under other names (one recursive function with a type switch, say): examined by structure
+		c20r3Structural(c, f, tag)
+		c20r3Hash(c, f)
+		return
+	}
 	c.Check(tag != "" && removed == tag, "hash-excludes-value-key", f.Pos(), fmt.Sprintf("the key removed before hashing is %q, the JSON name of Characteristic.Value", tag),
 		fmt.Sprintf("the key removed before hashing is %q but Characteristic.Value is encoded as %q: value changes bump the configuration number (or a structural member is ignored)", removed, tag))
 	calls := func(fn string, callee string) bool {
@@ -320,6 +326,119 @@ func c20r3(c *core.Ctx) {
 		})
 		c.Check(ok, "removal-deletes", g.Pos(), "matching keys are deleted from the decoded object", "deleteFieldFromDict does not delete")
 	}
+	c20r3Hash(c, f)
+}
+
+// c20r3Structural: ContentHash hands the decoded structure and a constant key to a family of mutually recursive functions of the
+// package which (1) range over a map[string]interface{}, delete the matching key and recurse into the other values, (2) range over a
+// []interface{} and recurse into its elements, and (3) tell the two apart by type assertion.
+func c20r3Structural(c *core.Ctx, f *ssa.Function, tag string) {
+	var entry *ssa.Function
+	removed := ""
+	core.Instrs(f, func(i ssa.Instruction) {
+		g := core.Callee(i)
+		if g == nil || !core.InModule(g) || g.Blocks == nil || g.Pkg != f.Pkg {
+			return
+		}
+		for _, a := range core.CallOf(i).Args {
+			if k, isK := core.ConstString(a); isK && isString(a.Type()) {
+				entry, removed = g, k
+			}
+		}
+	})
+	c.Check(tag != "" && removed == tag && entry != nil, "hash-excludes-value-key", f.Pos(), fmt.Sprintf("the key removed before hashing is %q, the JSON name of Characteristic.Value", tag),
+		fmt.Sprintf("the key removed before hashing is %q but Characteristic.Value is encoded as %q: value changes bump the configuration number (or a structural member is ignored)", removed, tag))
+	if entry == nil {
+		return
+	}
+	family := map[*ssa.Function]bool{}
+	var visit func(g *ssa.Function)
+	visit = func(g *ssa.Function) {
+		if family[g] {
+			return
+		}
+		family[g] = true
+		core.Instrs(g, func(i ssa.Instruction) {
+			if h := core.Callee(i); h != nil && core.InModule(h) && h.Blocks != nil && h.Pkg == g.Pkg {
+				visit(h)
+			}
+		})
+	}
+	visit(entry)
+	isDict := func(t types.Type) bool {
+		m, ok := t.Underlying().(*types.Map)
+		return ok && isString(m.Key()) && types.IsInterface(m.Elem())
+	}
+	isArr := func(t types.Type) bool {
+		sl, ok := t.Underlying().(*types.Slice)
+		return ok && types.IsInterface(sl.Elem())
+	}
+	// an element of a map / slice being ranged over, possibly through a loop variable whose address is passed on
+	var elemOf func(v ssa.Value, dict bool, depth int) bool
+	elemOf = func(v ssa.Value, dict bool, depth int) bool {
+		if depth > 4 {
+			return false
+		}
+		if a, ok := v.(*ssa.Alloc); ok {
+			for _, r := range *a.Referrers() {
+				if st, isSt := r.(*ssa.Store); isSt && st.Addr == ssa.Value(a) && elemOf(st.Val, dict, depth+1) {
+					return true
+				}
+			}
+			return false
+		}
+		for _, s := range core.Sources(v) {
+			if e, ok := s.(*ssa.Extract); ok && dict && e.Index == 2 {
+				if nx, ok := e.Tuple.(*ssa.Next); ok {
+					if rg, ok := nx.Iter.(*ssa.Range); ok && isDict(rg.X.Type()) {
+						return true
+					}
+				}
+			}
+			if u, ok := s.(*ssa.UnOp); ok && !dict && u.Op == token.MUL {
+				if ia, ok := u.X.(*ssa.IndexAddr); ok && isArr(ia.X.Type()) {
+					return true
+				}
+			}
+		}
+		return false
+	}
+	dictRec, arrRec, deletes, asDict, asArr := false, false, false, false, false
+	for g := range family {
+		core.Instrs(g, func(i ssa.Instruction) {
+			switch x := i.(type) {
+			case *ssa.TypeAssert:
+				if isDict(x.AssertedType) {
+					asDict = true
+				}
+				if isArr(x.AssertedType) {
+					asArr = true
+				}
+			case *ssa.Call:
+				if b, isB := x.Call.Value.(*ssa.Builtin); isB && b.Name() == "delete" && len(x.Call.Args) == 2 && isDict(x.Call.Args[0].Type()) {
+					deletes = true
+				}
+				if h := x.Call.StaticCallee(); h != nil && family[h] {
+					for _, a := range x.Call.Args {
+						if elemOf(a, true, 0) {
+							dictRec = true
+						}
+						if elemOf(a, false, 0) {
+							arrRec = true
+						}
+					}
+				}
+			}
+		})
+	}
+	// the entry may take the map as such: then no assertion is needed to get into the dictionary case from ContentHash, but values
+	// inside are interface{} and need both
+	c.Check(dictRec && arrRec && asDict && asArr, "removal-recurses", entry.Pos(), "the removal recurses through objects and arrays (the values of every object and the elements of every array are handed back to it, told apart by type assertion)",
+		"the removal of the value key does not recurse through both objects and arrays")
+	c.Check(deletes, "removal-deletes", entry.Pos(), "matching keys are deleted from the decoded object", "the removal does not delete")
+}
+
+func c20r3Hash(c *core.Ctx, f *ssa.Function) {
 	// hash input: json.Marshal of the decoded map (sorted keys)
 	viaMap := false
 	core.Instrs(f, func(i ssa.Instruction) {
